@@ -462,6 +462,9 @@ pub fn run(cfg: &Cfg) -> Report {
         (4, cfg.n(40_000, 3_000_000)),
     ];
     for (class, n) in plan {
+        if !cfg.wants(class) {
+            continue;
+        }
         let rep = par_run(cfg, n, 64, |idx, rep| {
             mon::begin_case(13, class, idx, seed);
             let c = make_case(class, idx, seed, quick);
